@@ -22,7 +22,7 @@ def scope_balance(prog, R, rule):
             continue
         n_pairs += min(ne, nx)
         R.ob(rule, inventory.ishort(b.npath), not problems and ne == nx, b.at, f"{ne} enter_scope / {nx} exit_scope; " + ("balanced on every path, never negative, zero at return" if not problems else f"problems: {problems[:3]}"))
-    R.floor("enter/exit scope pairs", n_pairs, 8)
+    R.floor("enter/exit scope pairs", n_pairs, 5)
     # who may call enter_scope / exit_scope: only with_scope! expansions (and SymbolTable::new)
     for k, b in prog.bodies.items():
         for bi, t in b.calls():
@@ -87,7 +87,7 @@ def run(prog, R):
                 st = sorted(stacks)[0]
                 ok = all(len(s_) == 1 and s_[0] in ("Local", "Subroutine") for s_ in stacks)
                 R.ob("C07.2-body-in-fresh-scope", f"{inventory.ishort(fn)}:{c.split('::')[-1]}:{n}", ok, b.blocks[bb].term["at"], f"{c.split('::')[-1]} called with scope stack {st} (relative to function entry)")
-    R.floor("body translation sites", n, 8)
+    R.floor("body translation sites", n, 5)
     # per arm: scope kind, parameter/loop-variable binding inside, name binding outside
     ps, trunc = paths(prog, s2s.npath)
     R.ob("C07.2-evaluated", "stmt_to_asg_stmt paths", not trunc and len(ps) >= 40, s2s.at, f"{len(ps)} paths")
@@ -224,14 +224,48 @@ def run(prog, R):
         if ia and iq:
             ng += 1
             go_ = go_ and max(ia) < min(iq)
+    # subroutine parameters: each parameter is bound in the same step in which its type is translated, so that an
+    # earlier parameter is visible (and shadows an outer name) in the designator of a later one
+    fam_ = [k for k in prog.bodies if k.startswith(S2S + "bind_typed_parameter_list")]
+    tr_ = [k for k in fam_ if any((prog.body(k).callee_of(t) or "").endswith("param_type_to_type") for _, t in prog.body(k).calls())]
+    bd_ = [k for k in fam_ if any((prog.body(k).callee_of(t) or "").endswith("Context::new_binding") for _, t in prog.body(k).calls())]
+    okp_ = bool(tr_) and bool(bd_) and set(tr_) == set(bd_)
+    if okp_:
+        for k in tr_:
+            kb = prog.body(k)
+            dom_ = kb.dominators()
+            trb = [bi for bi, t in kb.calls() if (kb.callee_of(t) or "").endswith("param_type_to_type")]
+            bdb = [bi for bi, t in kb.calls() if (kb.callee_of(t) or "").endswith("Context::new_binding")]
+            # the translation happens before the binding of the same parameter: no binding block dominates a translation
+            okp_ = okp_ and not any(x in dom_[y] for x in bdb for y in trb)
+    R.ob("C07.3-binding-order", "def: a parameter is bound in the step that translates its type", okp_, prog.body(fam_[0]).at if fam_ else "",
+         f"type translation and binding happen in {[k.split('bind_typed_parameter_list')[-1] for k in tr_]}" if okp_ else
+         f"types are translated in {[k.split('bind_typed_parameter_list')[-1] for k in tr_]} but names are bound in {[k.split('bind_typed_parameter_list')[-1] for k in bd_]}: all types are resolved before any parameter is bound, so `def f(int[8] n, int[n] m)` takes the width from an outer `n`")
     R.ob("C07.3-binding-order", "gate: angle parameters are bound before qubit parameters", go_ and ng >= 1, s2s.at, f"{ng} paths of the Gate arm bind both lists")
     # ---- C07.5 every use is resolved through the diagnosing helpers: SymbolTable::lookup itself reports nothing, so
     # the translator may reach it only through Context::lookup_symbol / lookup_gate_symbol (who-may-call)
     cg5 = prog.callgraph()
     LK5 = "oq3_semantics::symbols::SymbolTable::lookup"
     callers5 = sorted(k for k, v in cg5.items() if LK5 in v)
-    want5 = sorted(["oq3_semantics::context::Context::lookup_gate_symbol", "oq3_semantics::context::Context::lookup_symbol", "oq3_semantics::symbols::SymbolTable::lookup_or_new_binding"])
-    extra5 = [c for c in callers5 if c not in want5]
+    # the diagnosing helpers are recognised by what they do, not by their names: a caller inside Context that, on
+    # every path on which the table's answer is an error, inserts a diagnostic (the symbol table's own
+    # lookup_or_new_binding binds instead)
+    def _diagnoses(fn5):
+        b5 = prog.body(fn5)
+        ps5 = [p for p in SymExec(prog, b5, max_paths=2000).paths() if "__diverged__" not in p.env]
+        if not ps5:
+            return False
+        for p in ps5:
+            if not calls_named(p, LK5):
+                continue
+            ie = find_cond(p, lambda t: isinstance(t, tuple) and t[0] in ("call", "pure") and t[1].endswith("is_err")) + \
+                [c == ("eq", 1) for t, c in conds_of(p) if isinstance(t, tuple) and t[0] == "discr" and LK5 in show(t)]
+            if not ie:
+                return False            # the answer is not examined: nothing can be reported
+            if ie[0] and not errors_on(p):
+                return False
+        return True
+    extra5 = [c for c in callers5 if not (c == "oq3_semantics::symbols::SymbolTable::lookup_or_new_binding" or (c.startswith(CTX) and _diagnoses(c)))]
     R.ob("C07.5-lookup-diagnostics", "SymbolTable::lookup is reached only through the diagnosing helpers", not extra5 and len(callers5) >= 2, prog.body(LK5).at if prog.body(LK5) else "",
          f"callers: {[c.split('::')[-1] for c in callers5]}" if not extra5 else f"{[c.replace('oq3_semantics::', '') for c in extra5]} call SymbolTable::lookup directly: an unresolved name there is not reported as undefined")
     # ---- C07.5 diagnostics at lookup / binding time
@@ -239,7 +273,8 @@ def run(prog, R):
         b = R.anchor(prog, fn)
         if not b:
             continue
-        ps, _ = paths(prog, fn)
+        # private helpers of Context are looked into (two public look-ups sharing one private body)
+        ps = SymExec(prog, b, max_paths=4000, inline=lambda c: c.startswith(CTX) and c != fn and prog.body(c) is not None and str(prog.body(c).vis).startswith("in ")).paths()
         for p in ps:
             if "__diverged__" in p.env:
                 continue
